@@ -411,7 +411,16 @@ def tag_stmt(st, consts):
 
 
 def open_skel(src, consts):
-    return [tag_stmt(st, consts) for st in body_of(src.func('connection.py', 'Connection', 'open'))]
+    out = []
+    for st in body_of(src.func('connection.py', 'Connection', 'open')):
+        if isinstance(st, ast.Try) and not st.finalbody and not st.orelse and len(st.handlers) == 1 and \
+                isinstance(body_of(st.handlers[0])[-1], ast.Raise) and body_of(st.handlers[0])[-1].exc is None:
+            # a guarded stretch whose handler cleans up and re-raises: the statements count, the cleanup is
+            # the life-cycle translator's business (Gen.Lifecycle.openFailureCleanup)
+            out += [tag_stmt(x, consts) for x in body_of(st)]
+        else:
+            out.append(tag_stmt(st, consts))
+    return out
 
 
 def check_skel(src, consts):
